@@ -135,3 +135,107 @@ Section Contract.
       rewrite sub_created_abs by assumption. cbn [app orb]. now rewrite app_nil_r.
   Qed.
 End Contract.
+
+(* ---------------------------------------------------------------- replaying the contract *)
+Lemma under_refl s : under s s = true.
+Proof. induction s as [|x s IH]; simpl; [reflexivity|]. now rewrite beqb_refl. Qed.
+
+Lemma filter_view g f :
+  view_of (filter (fun e => g (e_path e)) f) = filter (fun x => g (fst x)) (view_of f).
+Proof.
+  unfold view_of. induction f as [|e f IH]; simpl; [reflexivity|].
+  destruct (g (e_path e)); simpl; now rewrite IH.
+Qed.
+
+(* the directory the emitter walks for synthetic events *)
+Definition target (o : op) : path :=
+  match o with OMkdir p _ => p | ORename _ d => d | OMoveIn d _ _ _ => d | _ => [] end.
+
+(* operations on leaves: the renamed entry has nothing below it, an arriving directory is empty *)
+Definition leaf_op (before : fs) (o : op) : Prop :=
+  match o with
+  | ORename s _ => forall e, In e before -> under s (e_path e) = true -> e_path e = s
+  | OMoveIn _ _ _ content => content = []
+  | _ => True
+  end.
+
+Theorem win_replay_leaf sub recursive before o :
+  leaf_op before o -> desc [] (sub (target o)) = [] ->
+  replay (view_of before) (win_contract sub recursive (apply_op before o) o) = view_of (apply_op before o).
+Proof.
+  intros Hleaf Hsub.
+  destruct o as [p i|p i|p|p|p|p|s d|s|d k i content]; cbn [target] in Hsub; cbn [win_contract apply_op].
+  - unfold view_of. now rewrite map_app.
+  - rewrite Hsub. cbn [map]. replace (if recursive then [] else []) with (@nil aev) by now destruct recursive.
+    unfold view_of. now rewrite map_app.
+  - reflexivity.
+  - reflexivity.
+  - cbn [replay fold_left replay1]. now rewrite (filter_view (fun q => negb (under p q))).
+  - cbn [replay fold_left replay1]. now rewrite (filter_view (fun q => negb (under p q))).
+  - rewrite Hsub. cbn [map].
+    assert (Hev : forall l, (l = [AMoved KDir s d false] \/ l = [AMoved KFile s d false]) ->
+              replay (view_of before) l =
+              view_of (map (fun e => if under s (e_path e)
+                                     then Entry (reprefix s d (e_path e)) (e_kind e) (e_ino e) else e) before)).
+    { intros l [-> | ->]; cbn [replay fold_left replay1]; unfold view_of; rewrite !map_map;
+        apply map_ext_in; intros e He; cbn [fst snd]; cbn [leaf_op] in Hleaf;
+        (destruct (under s (e_path e)) eqn:U;
+         [ rewrite (Hleaf e He U), path_eqb_refl; cbn [e_path e_kind]; unfold reprefix;
+           now rewrite skipn_all, app_nil_r
+         | destruct (path_eqb (e_path e) s) eqn:P; [|reflexivity];
+           apply path_eqb_eq in P; rewrite P, under_refl in U; discriminate ]). }
+    apply Hev. destruct (fs_isdir _ d); [left | right; reflexivity]. now destruct recursive.
+  - cbn [replay fold_left replay1]. now rewrite (filter_view (fun q => negb (under s q))).
+  - cbn [leaf_op] in Hleaf. subst content. rewrite Hsub. cbn [map].
+    replace (match k with KFile => [] | KDir => if recursive then [] else [] end) with (@nil aev)
+      by (destruct k, recursive; reflexivity).
+    unfold view_of. now rewrite map_app.
+Qed.
+
+(* ---------------------------------------------------------------- findings, as witnesses *)
+Local Open Scope N_scope.
+Definition r_ : bytes := [47; 114].          (* "/r" *)
+Definition na : bytes := [97].  Definition nb : bytes := [98].
+
+(* F11: the removal of a directory is queued with the File flavour *)
+Lemma win_removed_flavour_refuted :
+  let before := [Entry [na] KDir 5] in
+  op_ok before (ORmdir [na]) = true /\ fs_isdir before [na] = true /\
+  queue_events (fun _ => false) (fun _ => Node [] []) true r_ (map render_native (win_kernel (ORmdir [na])))
+  = ([Deleted KFile (abspath r_ [na])], false).
+Proof. vm_compute. repeat split. Qed.
+
+(* F13: the same two notifications delivered by two reads: the pending old name is forgotten *)
+Lemma win_cut_refuted :
+  let ns := map render_native (win_kernel (ORename [na] [nb])) in
+  let q := queue_events (fun _ => false) (fun _ => Node [] []) true r_ in
+  q ns = ([Moved KFile (abspath r_ [na]) (abspath r_ [nb]) false], false) /\
+  fst (q (firstn 1 ns)) ++ fst (q (skipn 1 ns)) = [Moved KFile [] (abspath r_ [nb]) false].
+Proof. vm_compute. split; reflexivity. Qed.
+
+(* ---------------------------------------------------------------- histories, one operation per batch *)
+Section History.
+  Variable sub : path -> tree.
+  Variable recursive : bool.
+
+  Fixpoint history_events (f : fs) (ops : list op) : list aev :=
+    match ops with
+    | [] => []
+    | o :: r => win_contract sub recursive (apply_op f o) o ++ history_events (apply_op f o) r
+    end.
+
+  Fixpoint leaf_history (f : fs) (ops : list op) : Prop :=
+    match ops with
+    | [] => True
+    | o :: r => leaf_op f o /\ desc [] (sub (target o)) = [] /\ leaf_history (apply_op f o) r
+    end.
+
+  Theorem win_replay_history_leaf : forall ops f, leaf_history f ops ->
+    replay (view_of f) (history_events f ops) = view_of (fold_left apply_op ops f).
+  Proof.
+    induction ops as [|o r IH]; intros f H; [reflexivity|].
+    destruct H as (Hl & Hs & Hr). cbn [history_events fold_left].
+    unfold replay. rewrite fold_left_app. fold (replay (view_of f) (win_contract sub recursive (apply_op f o) o)).
+    rewrite win_replay_leaf by assumption. apply IH, Hr.
+  Qed.
+End History.
